@@ -86,7 +86,7 @@ func ruleNibbles(c *Ctx, r *Report, rule string) {
 	}
 	got := map[string]int64{}
 	var byteObj types.Object
-	ast.Inspect(arm.Clause, func(n ast.Node) bool {
+	vm.inspectArm(c, arm, func(n ast.Node) bool {
 		as, ok := n.(*ast.AssignStmt)
 		if !ok || len(as.Lhs) != 1 || len(as.Rhs) != 1 {
 			return true
